@@ -170,13 +170,15 @@ SPEC["C01"] = {
        tests (not) and parenthesised test lists (anyof / allof), nested to any depth; blocks nested to
        any depth; elsif / else only after the commands they must follow -- is accepted, with any layout
        (C01_script_complete, C01_parse_script, C01_layout_insensitive);
+     - for ALL inputs: comments, white space and line endings do not influence the verdict
+       (C01_comment_insensitive, sieve/CommentFacts.v);
      - parse_total (props/C02.v): every other outcome is a SieveParseError, never a crash or a hang.
    The converse (soundness of acceptance with respect to the RFC 5228 generic grammar) is NOT proved in
    general: the structural theorem C01_accept_final_state is, and the executable oracle
    harness/sieve_spec.py (generic grammar + frozen signatures) is compared with the implementation on the
    exhaustive token enumeration, the structure cases and the generated scripts by the check, and the model
    is compared with the implementation on the same inputs.""",
-    "imports": SIEVE_IMPORTS + "From SV Require Import ArgCheckFacts GateFacts PositionFacts TotalFacts CompleteFacts CompleteTree CompleteExamples.\n",
+    "imports": SIEVE_IMPORTS + "From SV Require Import ArgCheckFacts GateFacts PositionFacts TotalFacts CompleteFacts CompleteTree CompleteExamples CommentFacts.\n",
     "theorems": [
         ("C01_argcheck_correct", "ArgCheckFacts.argcheck_correct",
          "feeding an argument sequence to check_next_arg: complete / incomplete / rejected exactly as the specification says, with the same recorded values"),
@@ -198,6 +200,10 @@ SPEC["C01"] = {
          "on texts: any text that lexes to the tokens of a well-formed script parses to exactly its tree"),
         ("C01_layout_insensitive", "CompleteFacts.layout_insensitive",
          "two texts that lex to the same tokens (blanks, line endings, positions) get the same verdict, tree and error category"),
+        ("C01_comment_insensitive", "CommentFacts.comment_insensitive",
+         "for ALL texts: removing / adding / changing hash and bracket comments anywhere (and white space, positions) changes neither the verdict nor the error category nor the tree, except for the comments recorded on top-level commands"),
+        ("C01_transitions_ignore_comments", "CommentFacts.process_commutes",
+         "every transition of the machine commutes with forgetting the pending and the recorded comments"),
         ("C01_script_example", "CompleteExamples.ex_wf",
          "non-vacuity on the tables generated from /repo: a script with require, if/elsif/else, anyof, not, nested blocks, tags, numbers and lists is derivable, and its tree is what parse returns"),
         ("C01_accept_final_state", "GateFacts.parse_accept_reachable",
@@ -438,7 +444,7 @@ Proof. vm_compute. reflexivity. Qed.
 
 MS_IMPORTS = """From Coq Require Import String.
 From Coq Require Import List NArith Bool Arith.
-From SV Require Import Bytes Base64 Client Transport Server Session WriterFacts StatusFacts SessionFacts.
+From SV Require Import Bytes Base64 Client Transport Server Session WriterFacts StatusFacts DecodeFacts DataFacts SessionFacts SessionData.
 Import ListNotations.
 Local Open Scope nat_scope.
 """
@@ -458,9 +464,16 @@ SPEC["C15"] = {
    successor state, and nothing is left in either buffer; by induction (C15_session) this holds for every
    session of such operations the reference server accepts, of any length, for every sequence of encoding
    choices.  Segmentation independence of every operation is C05 (interp agrees with the stream
-   semantics used here).  LISTSCRIPTS / GETSCRIPT / the emulated rename are composed in the
-   correspondence check (model client vs real client vs server state after every step of generated
-   sessions), not in Coq: the assembling step of read_response with quoted literals is not proved.""",
+   semantics used here).
+   The data-bearing operations (ms/DataFacts.v, ms/SessionData.v): whatever encoding the server chooses for
+   each name of a listing and for a script (quoted string or literal; with or without the extra CRLF after a
+   literal), __read_response assembles exactly the canonical text (C15_assemble_listing, C15_assemble_script),
+   so LISTSCRIPTS returns exactly the names of the store with the active one apart and GETSCRIPT exactly the
+   lines of the stored script, the server state unchanged and both buffers empty (C15_listscripts,
+   C15_getscript); and whole sessions mixing all eight operations stay in step (C15_session_with_data).
+   Names in listings are assumed free of CR / LF.  The emulated rename is a composition of these operations
+   (its safety is C14); GETSCRIPT of a missing script and LOGOUT / CAPABILITY are covered by the
+   correspondence check only.""",
     "imports": MS_IMPORTS,
     "theorems": [
         ("C15_server_receives_one_command", "SessionFacts.srv_react_simple",
@@ -469,6 +482,18 @@ SPEC["C15"] = {
          "one operation end to end: result = abstract answer, server state = abstract successor, both buffers empty"),
         ("C15_session", "SessionFacts.session_in_step",
          "whole sessions, no length bound: results, final client fields and final server state are those of the abstract session"),
+        ("C15_assemble_listing", "DataFacts.read_response_listing",
+         "__read_response on a listing in any mix of encodings, followed by the status reply: the canonical listing, the reply consumed exactly"),
+        ("C15_assemble_script", "DataFacts.read_response_script",
+         "__read_response on a script sent quoted or as a literal, with or without the extra CRLF"),
+        ("C15_listscripts", "SessionData.listscripts_against_server",
+         "LISTSCRIPTS end to end against the reference server"),
+        ("C15_getscript", "SessionData.getscript_against_server",
+         "GETSCRIPT of an existing script end to end"),
+        ("C15_session_with_data", "SessionData.session_with_data",
+         "sessions of all eight operations, any length, any encoding choices"),
+        ("C15_session_with_data_example", "SessionData.session_data_example",
+         "non-vacuity: a concrete session with two listings and a fetch"),
         ("raw", r'''(* what the abstract session is: the server's own exec_command, command by command *)
 Example C15_session_example :
   match abs_session [OPutscript (bs "b") (bs "stop;"); ODeletescript (bs "a"); OSetactive (bs "b");
